@@ -4,6 +4,8 @@
 -/
 import SifVerif.Proofs.Backend
 import SifVerif.Proofs.RangesStep
+import SifVerif.Proofs.CreateRanges
+import SifVerif.Proofs.CreateBackend
 namespace Sif.C14
 
 variable (sha : Bytes → Bytes) (ph : Bytes → Option Bytes)
@@ -78,6 +80,52 @@ theorem C14_history_inputs (a b : Img) (ops : List (Op × Int)) (S : ImgSim a b)
       (step sha ph (runOps sha ph a (ops.take k)) op now).2 ≠ .err .io) :
     ImgSim (runOps sha ph a ops) (runOps sha ph b ops) :=
   C14_history sha ph a b ops S W hne (Ranges_history sha ph a ops W R E hin hio) hio
+
+/-- `CreateContainer` with any initial objects answers the same and leaves byte-identical contents
+    on a `sif.Buffer` and on a file, whenever the descriptor capacity is positive (capacity 0 is
+    finding D8: `D8_capacity_zero`) -/
+theorem C14_created (co : CreateOpts) (hcap : 0 < co.capacity) (hdoff : 0 ≤ co.doff) :
+    (runPlan (createContainerPlan sha ph .buf co) (emptyStore .buf)).2 =
+      (runPlan (createContainerPlan sha ph .file co) (emptyStore .file)).2 ∧
+    ImgSim (runPlan (createContainerPlan sha ph .buf co) (emptyStore .buf)).1
+      (runPlan (createContainerPlan sha ph .file co) (emptyStore .file)).1 :=
+  createContainer_lockstep sha ph co hcap hdoff
+
+/-- **from `CreateContainer` through any history, on both backends**: creation options and every
+    operation's inputs representable, capacity positive, creation accepted, no store failure on the
+    buffer run — then the two runs stay byte-identical with equal handles throughout.  No
+    hypothesis mentions an invariant of a state. -/
+theorem C14_from_creation (co : CreateOpts) (hin : co.InRange) (hcap : 0 < co.capacity)
+    (hdoff : 128 ≤ co.doff) (h : (createContainerPlan sha ph .buf co).2.2 = .ok)
+    (ops : List (Op × Int)) :
+    let a := (runPlan (createContainerPlan sha ph .buf co) (emptyStore .buf)).1
+    let b := (runPlan (createContainerPlan sha ph .file co) (emptyStore .file)).1
+    (∀ k op now, ops[k]? = some (op, now) → Op.InRange (runOps sha ph a (ops.take k)) op now) →
+    (∀ k op now, ops[k]? = some (op, now) →
+      (step sha ph (runOps sha ph a (ops.take k)) op now).2 ≠ .err .io) →
+    ImgSim (runOps sha ph a ops) (runOps sha ph b ops) := by
+  intro a b hi hio
+  have hcapU : co.capacity < maxU32 := by
+    by_cases hc : co.capacity ≥ maxU32
+    · unfold createContainerPlan at h; simp [hc] at h
+    · omega
+  obtain ⟨st', h1, W, _, _⟩ := createContainerPlan_ok sha ph .buf co (by omega) hdoff trivial h
+  obtain ⟨R, E⟩ := createContainerPlan_ranges sha ph .buf co hin hcapU
+  have ha : a = { (createContainerPlan sha ph .buf co).2.1 with st := st' } := by
+    show (runPlan (createContainerPlan sha ph .buf co) (emptyStore .buf)).1 = _
+    unfold runPlan
+    rw [callsPrefix_of_calls _ st' _ h1]
+  have S := (C14_created sha ph co hcap (by omega)).2
+  have Wa : WF a := by rw [ha]; exact W
+  have hne : a.rds ≠ [] := by
+    intro he
+    have hl := createContainerPlan_len sha ph .buf co hcapU
+    rw [ha] at he
+    simp only at he
+    rw [he] at hl
+    simp at hl
+    omega
+  exact C14_history_inputs sha ph a b ops S Wa hne (by rw [ha]; exact ⟨R.hv, R.dv⟩) (by rw [ha]; exact E) hi hio
 
 /-! ### finding D8: the one excluded call shape really differs -/
 
